@@ -191,6 +191,10 @@ static void check_acquisition(const char* how)
         const struct mock_dev_state* sd = mock_dev(sto);
         unsigned long delivered = cd->delivered;
         int k = g_cfg_avg[s] > 1 ? g_cfg_avg[s] : 1;
+        // averaging is defined for integer samples (C10): with a float camera the filter gives up at its first frame, and what is
+        // owed is that the acquisition winds down (workers finished, devices stopped), not its contents
+        int unaveragable = k > 1 && g_cam_type[cam] >= (int)SampleType_f32 && g_cam_type[cam] != (int)SampleType_u10 &&
+                           g_cam_type[cam] != (int)SampleType_u12 && g_cam_type[cam] != (int)SampleType_u14;
         // records of this storage run
         int n = 0; int bad_order = 0, bad_payload = 0, bad_shape = 0;
         uint64_t expect_id = 0;
@@ -205,10 +209,10 @@ static void check_acquisition(const char* how)
             ++n;
         }
         unsigned long full = delivered / (unsigned long)k, want_min = full, want_max = full + ((delivered % k) ? 1 : 0);
-        if (bad_order) oracle("stored-frames-out-of-order-or-gap stream=%d how=%s n=%d", s, how, n);
-        if (bad_payload) oracle("stored-frame-payload-differs stream=%d how=%s bad=%d", s, how, bad_payload);
+        if (bad_order && !unaveragable) oracle("stored-frames-out-of-order-or-gap stream=%d how=%s n=%d", s, how, n);
+        if (bad_payload && !unaveragable) oracle("stored-frame-payload-differs stream=%d how=%s bad=%d", s, how, bad_payload);
         if (bad_shape) oracle("stored-frame-type-not-f32 stream=%d", s);
-        if (!strcmp(how, "stop") && !sd->failed && !cd->failed) {
+        if (!strcmp(how, "stop") && !sd->failed && !cd->failed && !unaveragable) {
             if (delivered != g_run_n[s]) oracle("camera-delivered-%lu-of-%llu stream=%d", delivered, (unsigned long long)g_run_n[s], s);
             if ((unsigned long)n < want_min || (unsigned long)n > want_max)
                 oracle("stored-%d-frames-expected-%lu..%lu delivered=%lu k=%d stream=%d how=stop", n, want_min, want_max, delivered, k, s);
